@@ -3,7 +3,9 @@
 M1: MC_AngleArith enumerates a structured lattice of binary32 values (1/16 degree grid, +-ulp neighbours of multiples of
     15 degrees, huge multiples of 30 degrees up to 360*2^100, subnormal/tiny values, the AngRound grid, specials), pairs
     from an edge set, pairs related by the elementary trigonometric identities, and all Accumulator histories of length
-    NHist on a limb lattice; TLC checks the model's own invariants (idempotence, oddness, congruence mod 360, exact
+    NHist on a limb lattice (every constructor form, +=, -=, negation, *= int, *= T, a = y, a = Accumulator(y), copy,
+    assignment, probe, the six comparison operators, remainder), and the helpers polyval / sq / norm / hypot3 on integer
+    lattices; TLC checks the model's own invariants (idempotence, oddness, congruence mod 360, exact
     two-sum identity, antisymmetry of AngDiff, reduction identities, accumulator algebra).
 M2: every vector is executed on the real library (binary32 instantiations; the same values also as binary64).
 M3: Trace_AngleArith validates every observation: binary32 results against the exact model (AngleArith.tla), all types
@@ -40,6 +42,10 @@ def to_rows(vals):
             rows.append(['one'] + _flat(v[1]))
         elif k in ('two', 'trp'):
             rows.append([k] + _flat(v[1]) + _flat(v[2]))
+        elif k == 'pv':
+            rows.append(['pv', len(v[1])] + [int(t) for t in v[1]] + [int(v[2])])
+        elif k in ('sq', 'nrm', 'h3'):
+            rows.append([k] + [int(t) for t in v[1:]])
         elif k == 'acc':
             rows.append(['acc', v[1]] + [int(t) for op in v[2] for t in op])
     return rows
@@ -49,8 +55,8 @@ def run(ctx):
     stride = 3 if ctx.quick else 1
     nhist = 3 if ctx.quick else 4
     base = ('INIT Init\nNEXT Next\nCONSTANTS Stride = %d Part = "%%s" NChunks = 64 NHist = %d\n'
-            'INVARIANTS OneInv TwoInv TrpInv AccInv Emit\nCHECK_DEADLOCK FALSE\n' % (stride, nhist))
-    parts = [(p, base % p) for p in ('one', 'two', 'trp', 'acc')]
+            'INVARIANTS OneInv TwoInv TrpInv AccInv MscInv Emit\nCHECK_DEADLOCK FALSE\n' % (stride, nhist))
+    parts = [(p, base % p) for p in ('one', 'two', 'trp', 'acc', 'msc')]
     nrec = 48000 if ctx.quick else 1200000
     sweep = 0 if ctx.quick else 4096
     vlib.lattice_pipeline(ctx, 'MC_AngleArith', parts, to_rows, 'drv_angle', ['replay', 'fd'],
@@ -63,8 +69,11 @@ def run(ctx):
 RULE = ('vectors enumerated by TLC from MC_AngleArith: binary32 values n/16 degree in [-720, 720] (stride 3 in the quick tier, always '
         'around multiples of 15 degrees), +-1,2 ulp neighbours of multiples of 15 degrees, 30 w 2^j (j <= 100) +-1 ulp, tiny and '
         'subnormal values, the 2^-28 AngRound grid, specials; all pairs of a 100-value edge set plus a coarse grid; pairs related by '
-        'x -> -x, x + 360 j, 90 - x, 180 - x, x + 90 j, 90 j - x; all Accumulator<float|double> histories of length NHist over 21 '
-        'operations on the limb lattice; plus seeded random records (float, double, long double). distinct_nontrivial = distinct '
+        'x -> -x, x + 360 j, 90 - x, 180 - x, x + 90 j, 90 j - x; all Accumulator<float|double> histories that start with one of 7 '
+        'constructor forms (default, a(y), a = y) and continue with at most NHist operations out of 24 mutating ones (+=, -=, '
+        'negate, *= int, *= T, a = y, a = Accumulator(y)) and, last only, 11 observing ones (probe, comparisons with 4 numbers, copy, '
+        'assignment, remainder by 3 moduli); polyval (orders -1..4, coefficients -2..2, x in -4..4), sq (12-bit significands), norm '
+        '(11 Pythagorean triples x signs x swap x 2^k), hypot3 on the axes; plus seeded random records (float, double, long double). distinct_nontrivial = distinct '
         'lattice vectors.')
 TRUSTED = ['TLC', 'AngleArith.tla', 'Accumulator.tla', 'MPFR/GMP (reference values and exact residuals)',
            'drv_angle.cpp (residual quantisation)']
